@@ -31,10 +31,11 @@ Request lines: see harness/src/ops_gf2.rs and lean/Ymq/Drv/Gf2.lean.
 import math
 import random
 from vlib.pipeline import Case
+import props.c14_small as sm
 
 PID = "C14"
 GEN = []
-LEAN = ["Ymq.Props.C14"]
+LEAN = ["Ymq.Props.C14"] + sm.LEAN
 AUDIT = "Ymq.Audit.C14"
 THEOREMS = ["Ymq.C14." + t for t in (
     "gauss_inv gauss_total gauss_kernel gauss_independent gauss_count "
@@ -61,8 +62,9 @@ MODELLED = [
     "kernel_lanczos: B*Y, bit columns, kernel_gauss, Y*K, swap_remove of null vectors",
 ]
 UNMODELLED = [
-    "the randomised block Lanczos iteration (genblock, mul_aab_opt, SmallMat rank/inverse/pseudoinverse, Block::muladd) is not modelled: "
-    "the theorem lanczos_final holds for EVERY block Y, the iteration is an arbitrary producer of Y (exported by the hook and replayed)",
+    "the main loop of the block Lanczos iteration (the three-term recurrence, mul_aab_opt, Block::muladd, the random source) is not modelled: "
+    "the theorem lanczos_final holds for EVERY block Y, the iteration is an arbitrary producer of Y (exported by the hook and replayed); its 64x64 "
+    "core (SmallMat rank / rank_reverse / mask / pseudoinverse / inverse, genblock's acceptance rule) IS modelled: see the C14Small entries",
     "bitvec_simd::BitVec and wide::u64x4 storage (SIMD xor, leading_zeros, the raw pointer read of the first lane) are modelled as bit lists",
     "the order produced by sort_unstable_by_key in qs_optimize (only a permutation of the coordinate list; the product is proved independent of it)",
     "termination of kernel_lanczos: genblock loops forever when rank(B B^T B) < 64 (no block Y with a full-rank Gram matrix exists); one such "
@@ -206,7 +208,13 @@ FLOOR = {"runs": 0, "nonempty": 0, "corank0_runs": 0, "corank_gt100_runs": 0, "c
 
 
 def extra_coverage():
-    return {"lanczos_nonempty_floor": dict(FLOOR, rule="runs on matrices with 1 <= corank <= 100: at least 90 % must return a vector")}
+    d = {"lanczos_nonempty_floor": dict(FLOOR, rule="runs on matrices with 1 <= corank <= 100: at least 90 % must return a vector")}
+    d.update(sm.extra_coverage())
+    return d
+
+
+def finding_key(case, ans, profile):
+    return sm.finding_key(case, ans, profile) if case.op in sm.OPS else None
 
 
 def rank_bbtb(cols, nrows):
@@ -651,12 +659,15 @@ def cases(tier, rng, extended=False):
     if extended:
         scale *= 4
     yield from boundary_cases(_fork(rng, "C14-boundary"), tier)
+    yield from sm.cases(tier, _fork(rng, "C14-small"), extended)
     yield from gauss_cases(rng, scale, extended)
     yield from product_cases(rng, scale, extended)
     yield from lanczos_cases(rng, scale, extended)
 
 
 def corpus_case(line):
+    if line.split(" ", 1)[0] in sm.OPS:
+        return sm.corpus_case(line)
     # `!nok ` prefix: not compared with the model; `!fu ` prefix: Lanczos line whose basis is replayed by the model
     if line.startswith("!nok "):
         return Case(line[5:], k=False)
@@ -668,6 +679,8 @@ def corpus_case(line):
 # ---------------------------------------------------------------- follow-up (Lanczos replay by the model)
 
 def followup(case, ans):
+    if case.op in sm.OPS:
+        return sm.followup(case, ans)
     if case.op != "gf2_lanczos" or case.tag != "fu":
         return None
     parts = ans.split(" ")
@@ -680,6 +693,8 @@ def followup(case, ans):
 # ---------------------------------------------------------------- oracle
 
 def oracle(case, ans):
+    if case.op in sm.OPS:
+        return sm.oracle(case, ans)
     op = case.op
     if op == "gf2_gauss":
         nrows, ncols, cols = gauss_matrix(case)
@@ -792,6 +807,8 @@ def oracle(case, ans):
 # ---------------------------------------------------------------- distribution
 
 def klass(case, ans):
+    if case.op in sm.OPS:
+        return sm.klass(case, ans)
     op = case.op
     bad = "/" + ans if ans in ("panic", "abort", "hang", "?") else ""
     if op == "gf2_gauss":
@@ -816,6 +833,8 @@ def klass(case, ans):
 
 
 def nontrivial(case, ans):
+    if case.op in sm.OPS:
+        return sm.nontrivial(case, ans)
     if case.op in ("gf2_gauss", "gf2_lanczos", "gf2_qsopt", "gf2_optmul", "gf2_spmul"):
         return int(case.args[1]) >= 2
     return len(case.args[0]) > 1
@@ -837,3 +856,10 @@ LEVEL_NOTE = ("Trusted: Lean kernel (+propext, Classical.choice, Quot.sound); th
               "or many copies of few vectors) are outside the property. Sparse theorems assume row indices < k and fewer than 2^32 rows and "
               "columns (coordinates are stored as u32). Repeated row indices in a sparse column cancel in pairs (after fix 8171183 in every routine).")
 TECHNIQUE = "Lean 4 proof about a hand model + differential correspondence check + spec oracle"
+
+
+# ---- the 64x64 core (props/c14_small.py)
+THEOREMS = list(THEOREMS) + list(sm.THEOREMS)
+MODELLED = list(MODELLED) + list(sm.MODELLED)
+UNMODELLED = list(UNMODELLED) + list(sm.UNMODELLED)
+RULE = RULE + " || " + sm.RULE_SMALL
